@@ -133,7 +133,7 @@ pub fn run(world: &World, ctx: &mut Ctx) -> Option<Value> {
         }
     }
     let pairs: usize = fams.iter().map(|f| f.base.rules.len()).sum();
-    let total = ctx.tier.pick(25_000u64, 500_000u64);
+    let total = ctx.tier.pick(60_000u64, 800_000u64);
     let n = super::per_pair(total, pairs, 50, 20_000);
     for fam in &fams {
         for rule in 0..fam.base.rules.len() {
